@@ -12,20 +12,37 @@ cleanup() { git -C /repo worktree remove --force "$WT" >/dev/null 2>&1; rm -rf "
 trap cleanup EXIT
 ( cd "$WT" && git apply "$SD/patch.diff" ) || { echo "CONFIRM: patch does not apply"; exit 2; }
 ( cd "$WT" && go build ./... ) || { echo "CONFIRM: does not compile"; exit 2; }
-if ( cd "$WT" && go test -vet=off -count=1 ./... >/tmp/seedchk-suite.log 2>&1 ); then echo "CONFIRM: existing suite passes with the change"; else echo "CONFIRM: existing suite FAILS with the change"; grep -v "^ok\|no test files" /tmp/seedchk-suite.log | tail -15; exit 2; fi
+if ( cd "$WT" && go test -vet=off -count=1 ./... >/tmp/seedchk-$(basename $SD)-suite.log 2>&1 ); then echo "CONFIRM: existing suite passes with the change"; else echo "CONFIRM: existing suite FAILS with the change"; grep -v "^ok\|no test files" /tmp/seedchk-$(basename $SD)-suite.log | tail -15; exit 2; fi
 for f in "$SD"/*_test.go; do [ -e "$f" ] && cp "$f" "$WT/$PKG/"; done
-if ( cd "$WT" && go test -vet=off -count=1 -run 'Seeded|seeded|Demo' ./$PKG/ >/tmp/seedchk-demo1.log 2>&1 ); then echo "CONFIRM: demo PASSES with the change (expected fail)"; exit 2; else echo "CONFIRM: demo fails with the change"; fi
+if ( cd "$WT" && go test -vet=off -count=1 -run 'Seeded|seeded|Demo' ./$PKG/ >/tmp/seedchk-$(basename $SD)-demo1.log 2>&1 ); then echo "CONFIRM: demo PASSES with the change (expected fail)"; exit 2; else echo "CONFIRM: demo fails with the change"; fi
 ( cd "$WT" && git apply -R "$SD/patch.diff" )
-if ( cd "$WT" && go test -vet=off -count=1 -run 'Seeded|seeded|Demo' ./$PKG/ >/tmp/seedchk-demo2.log 2>&1 ); then echo "CONFIRM: demo passes without the change"; else echo "CONFIRM: demo FAILS without the change"; tail -15 /tmp/seedchk-demo2.log; exit 2; fi
+if ( cd "$WT" && go test -vet=off -count=1 -run 'Seeded|seeded|Demo' ./$PKG/ >/tmp/seedchk-$(basename $SD)-demo2.log 2>&1 ); then echo "CONFIRM: demo passes without the change"; else echo "CONFIRM: demo FAILS without the change"; tail -15 /tmp/seedchk-$(basename $SD)-demo2.log; exit 2; fi
 cleanup; trap - EXIT
 fi
-# against /repo itself
+# against /repo itself (default), or - SEEDED_WT=1 - against a scratch worktree with the change applied, which
+# leaves /repo alone so that several changes can be judged at once and background runs on /repo are not disturbed
+if [ -n "${SEEDED_WT:-}" ]; then
+  WT2=$(mktemp -d /tmp/seedrun-XXXXXX)
+  git -C /repo worktree add -q --detach "$WT2" HEAD || exit 2
+  ( cd "$WT2" && git apply "$SD/patch.diff" ) || exit 2
+  RD=$(mktemp -d /tmp/seedreplay-XXXXXX)
+  for P in "$@"; do
+    VERIF_REPO="$WT2" VERIF_NO_EVIDENCE=1 VERIF_REPLAY_DIR="$RD" /verif/check "$P" > /tmp/seedchk-$(basename $SD)-$P.log 2>&1
+    rc=$?
+    echo "CHECK $P on seeded tree: exit $rc :: $(grep -m1 '  rule ' /tmp/seedchk-$(basename $SD)-$P.log | cut -c1-260)"
+    if [ $rc -eq 1 ]; then f=$(ls $RD/$P-*.json 2>/dev/null | head -1); [ -n "$f" ] && cp "$f" "$SD/replay-$P.json"; fi
+  done
+  git -C /repo worktree remove --force "$WT2" >/dev/null 2>&1; rm -rf "$WT2" "$RD"
+  exit 0
+fi
 if ! git -C /repo diff --quiet; then echo "/repo is dirty"; exit 2; fi
 git -C /repo apply "$SD/patch.diff" || exit 2
 RD=$(mktemp -d /tmp/seedreplay-XXXXXX)
 for P in "$@"; do
   VERIF_NO_EVIDENCE=1 VERIF_REPLAY_DIR="$RD" /verif/check "$P" > /tmp/seedchk-$P.log 2>&1
-  echo "CHECK $P on seeded tree: exit $? :: $(grep -m1 '  rule ' /tmp/seedchk-$P.log | cut -c1-260)"
+  rc=$?
+  echo "CHECK $P on seeded tree: exit $rc :: $(grep -m1 '  rule ' /tmp/seedchk-$P.log | cut -c1-260)"
+  if [ $rc -eq 1 ]; then f=$(ls $RD/$P-*.json 2>/dev/null | head -1); [ -n "$f" ] && cp "$f" "$SD/replay-$P.json"; fi
 done
 git -C /repo checkout -- .
 rm -rf "$RD"
